@@ -431,4 +431,9 @@ example :
     toAbs r = [{ ty := .noteOn, ch := pyNone, note := 60, vel := 90, time := 0 }, { ty := .internal, ch := pyNone, time := 1 }] := by
   decide
 
+/-- the default arguments of every function this translator reads are pinned (a changed default changes what callers that rely on it get) -/
+theorem view_defaults_pinned :
+    Gen.View.defaults = ["Message.__init__(channel=None)", "Message.__init__(control=None)", "Message.__init__(denominator=None)", "Message.__init__(key=None)", "Message.__init__(message_type=None)", "Message.__init__(note=None)", "Message.__init__(numerator=None)", "Message.__init__(program=None)", "Message.__init__(time=None)", "Message.__init__(velocity=None)", "MidiMessage.__init__(channel=None)", "MidiMessage.__init__(control=None)", "MidiMessage.__init__(denominator=None)", "MidiMessage.__init__(key=None)", "MidiMessage.__init__(message_type=None)", "MidiMessage.__init__(note=None)", "MidiMessage.__init__(numerator=None)", "MidiMessage.__init__(program=None)", "MidiMessage.__init__(time=None)", "MidiMessage.__init__(velocity=None)", "RelativeSequence.add_message(index=None)", "RelativeSequence.scale(meta_sequence=None)"] := by
+  decide
+
 end SCoda.ViewTie
